@@ -618,7 +618,7 @@ pub fn run(ctx: Arc<Ctx>) {
 	{
 		let plans: Vec<(usize, Vec<u64>, usize)> = ctx.tier.pick(
 			vec![(1, vec![0, 1, 2], 6), (2, vec![0, 1, 2, 3], 6), (3, vec![0, 1, 2, 3, 4], 5)],
-			vec![(1, vec![0, 1, 2], 7), (2, vec![0, 1, 2, 3], 7), (3, vec![0, 1, 2, 3, 4], 6), (4, vec![0, 1, 2, 3, 4, 5], 6), (5, vec![0, 1, 2, 3, 4, 5, 6], 5)],
+			vec![(1, vec![0, 1, 2], 7), (2, vec![0, 1, 2, 3], 6), (2, vec![0, 1, 2], 7), (3, vec![0, 1, 2, 3, 4], 6), (4, vec![0, 1, 2, 3, 4, 5], 5), (5, vec![0, 1, 2, 3, 4, 5, 6], 5)],
 		);
 		let mut total = 0u64;
 		for (cap, keys, depth) in plans {
